@@ -1,8 +1,8 @@
 #!/bin/bash
 # usage: tools/sweep.sh <tier> <seed> [ids…]  -- runs the checks sequentially, prints one line each
 TIER=$1; SEED=$2; shift 2
-[ $# -eq 0 ] && set -- $(jq -r '.checks[].property_id' /verif/MANIFEST.json)
-cd /verif
+[ $# -eq 0 ] && set -- $(jq -r '.checks[].property_id' MANIFEST.json)
+cd "$(dirname "$0")/.."
 for id in "$@"; do
   t0=$(date +%s)
   out=$(VERIF_SEED=$SEED ./check $id $TIER 2>&1); rc=$?
